@@ -425,7 +425,7 @@ def main(ctx):
     global LIM
     LIM = xlink.SigLimiter(ctx, 2)
     tools.wild()
-    n = ctx.pick(80, 2000)
+    n = ctx.pick(80, 500)
     jobs = [("p", i) for i in range(len(pinned_progs()))] + [("c", i) for i in range(n)]
     if ctx.replay is not None:
         c = str(ctx.replay.get("case"))
